@@ -86,6 +86,18 @@ def dumper_solve(job, values):
     return json.load(open(d + '/out.json'))
 
 
+def dumper_engine(job, values):
+    """gnark test engine on a harness circuit over an arbitrary prime (job['field'] may be a decimal modulus)"""
+    exe = os.path.join(scratch(), 'r2sdump')
+    if not os.path.exists(exe):
+        build_go('engine/r2s/dump', 'r2sdump')
+    d = tempfile.mkdtemp(prefix='engine_', dir=scratch())
+    json.dump(job, open(d + '/job.json', 'w'))
+    json.dump({'values': [str(v) for v in values]}, open(d + '/in.json', 'w'))
+    sh([exe, 'engine', d + '/job.json', d + '/in.json', d + '/out.json'], timeout=600)
+    return json.load(open(d + '/out.json'))
+
+
 def dumper_oracle(reqs):
     exe = os.path.join(scratch(), 'r2sdump')
     if not os.path.exists(exe):
